@@ -295,11 +295,14 @@ def _resample(prop):
     kinds = {"C08": ("billing", "subdaily"), "C09": ("temp",)}[prop]
 
     def variants(tier, r, cin):
+        # "<form>@<zone>": whole-hour-DST zones of both hemispheres (transition at 02:00 local, at 01:00 UTC, southern seasons)
         if cin["kind"] == "billing":
-            return ["baseline", "reporting"] if tier == "thorough" else [r.choice(["baseline", "reporting"])]
-        if cin["kind"] == "subdaily":
-            return ["nan-cells", "absent-rows"] if tier == "thorough" else [r.choice(["nan-cells", "absent-rows"])]
-        return ["feed-local", "feed-utc"] if tier == "thorough" else [r.choice(["feed-local", "feed-utc"])]
+            vs = [f + "@" + z for f in ("baseline", "reporting") for z in ("America/Chicago", "Europe/London")]
+        elif cin["kind"] == "subdaily":
+            vs = [f + "@" + z for f in ("nan-cells", "absent-rows") for z in ("America/Chicago", "Europe/London", "Australia/Sydney")]
+        else:
+            vs = [f + "@" + z for f in ("feed-local", "feed-utc", "feed-kolkata") for z in ("America/Chicago", "Europe/London", "Australia/Sydney")]
+        return vs if tier == "thorough" else [vs[0], r.choice(vs[1:])]
 
     keep = 'pc = "done"'
     return runner.PureSpec(
@@ -315,6 +318,61 @@ def _resample(prop):
                      "amounts are chosen so that per-day values are integers; values are snapped with limit_denominator(5000) and must be exact to 1e-9",
                      "estimated reads (no public input for them in the data classes) are not generated"],
         invariants_note="MC config checks conservation (constant rate x day lengths = amount), monotonicity of the coverage rule, distinct missing indices")
+
+
+class C20Entry:
+    """C20 = Window (TLC-enumerated calls replayed on the real functions) + the calls RECORDED from the repository's own
+    tests of the window functions (guarded tracing hook), judged by the same trace specification."""
+    MAX_ROWS_QUICK = 2000
+
+    def _recorded(self, tier):
+        from drivers import window_repo
+        common.setup_env()
+        recs, summary = window_repo.record(tlc.workdir("window_repo"))
+        cases, skipped = [], []
+        for k, r in enumerate(recs):
+            c = window_repo.convert(k, r)
+            if "skip" in c:
+                skipped.append({"test": r.get("test", ""), "why": c["skip"]})
+            elif tier == "quick" and len(c["in"]["idx"]) > self.MAX_ROWS_QUICK:
+                skipped.append({"test": r.get("test", ""), "why": "series of %d rows: validated in the thorough tier" % len(c["in"]["idx"])})
+            else:
+                cases.append(c)
+        if not cases:
+            raise tlc.TLCError("the repository's window tests produced no recorded call (hook not active?): %s" % summary)
+        return runner.run_recorded(
+            "C20", tier, trace_module="WindowTrace", tag="window_repo_trace", cases=cases, skipped=skipped, summary=summary,
+            evidence_suffix="_repotests", spec_files=["WindowDefs.tla", "WindowTrace.tla"], nontrivial=window_repo.nontrivial, module="WindowRepoTests",
+            rule="every public call of get_baseline_data / get_reporting_data made by the repository's own tests (tests/test_transform.py, run with "
+                 "the guarded tracing hook) is converted to the abstract record (timestamps -> integer seconds, null masks, hashes) and judged "
+                 "by WindowTrace.tla; non-trivial = the call cuts rows off or ends in an error",
+            assumptions=["recorded calls: unit of the timeline is one second (u = 86400); calls whose input lies outside the abstract input space "
+                         "(unsorted / duplicated index, naive limits) are listed as skipped, not judged"])
+
+    def run(self, tier):
+        rc1 = runner.run_pure(_window(), tier)
+        rc2 = self._recorded(tier)
+        runner.merge_evidence("C20", ["C20", "C20_repotests"])
+        return 1 if (rc1 or rc2) else 0
+
+    def replay(self, payload):
+        if payload.get("recorded"):
+            # run the repository tests again on the current tree and judge the calls of the same test
+            from . import pure
+            from drivers import window_repo
+            common.setup_env()
+            recs, summary = window_repo.record(tlc.workdir("window_repo"))
+            cases = [c for c in (window_repo.convert(k, r) for k, r in enumerate(recs)) if "skip" not in c and c.get("variant") == payload.get("test")]
+            rej, _ = pure.validate("WindowTrace", cases, "window_repo_trace") if cases else ({}, 0)
+            own = sorted(set(sum(rej.values(), [])))
+            if own:
+                print("VIOLATION property=C20 replay=(calls recorded from %s) clauses=%s" % (payload.get("test"), ",".join(own)))
+            print("C20 replay: %d calls recorded from %s, %d rejected" % (len(cases), payload.get("test"), len(rej)))
+            return 1 if own else 0
+        return runner.run_pure(_window(), "quick", only_cases=[payload["case"]])
+
+    def selftest(self):
+        return runner.selftest_pure(_window())
 
 
 class C12Entry:
@@ -399,7 +457,7 @@ class LifeEntry:
         return lifeprops.selftest(self.prop)
 
 
-_REG = {"C20": lambda: PureEntry(_window()), "C07": lambda: C07Entry(), "C19": lambda: PureEntry(_agg()), "C06": lambda: C06Entry(), "C18": lambda: PureEntry(_seg()), "C14": lambda: PureEntry(_settings()), "C10": lambda: PureEntry(_suff()), "C13": lambda: PureEntry(_split()), "C17": lambda: PureEntry(_prep()), "C16": lambda: PureEntry(_metrics()), "C11": lambda: PureEntry(_curve()), "C12": lambda: C12Entry(), "C08": lambda: PureEntry(_resample("C08")), "C09": lambda: PureEntry(_resample("C09"))}
+_REG = {"C20": lambda: C20Entry(), "C07": lambda: C07Entry(), "C19": lambda: PureEntry(_agg()), "C06": lambda: C06Entry(), "C18": lambda: PureEntry(_seg()), "C14": lambda: PureEntry(_settings()), "C10": lambda: PureEntry(_suff()), "C13": lambda: PureEntry(_split()), "C17": lambda: PureEntry(_prep()), "C16": lambda: PureEntry(_metrics()), "C11": lambda: PureEntry(_curve()), "C12": lambda: C12Entry(), "C08": lambda: PureEntry(_resample("C08")), "C09": lambda: PureEntry(_resample("C09"))}
 for _p in ("C01", "C02", "C03", "C04", "C05"):
     _REG[_p] = (lambda p: (lambda: LifeEntry(p)))(_p)
 
